@@ -1,7 +1,7 @@
 """C10 — orient_ makes every orientable manifold triangle mesh consistently oriented."""
 import numpy as np
 
-from .. import repo, core, gen, wire
+from .. import repo, core, gen, wire, extract
 from ..base import BaseCheck
 from .C09 import brute
 from lapy import TriaMesh
@@ -65,6 +65,9 @@ class Check(BaseCheck):
             "fans (must raise) and, in the thorough tier, all flip patterns of the tetrahedron boundary / octahedron / 2x2 grid; every "
             "implementation call runs in a killable worker so non-termination is an observable output; distinct by hash of (v, t)")
     trusted = ["np.unique/np.lexsort pairing and SciPy sparse product (exact zeros pruned) as re-implemented by the model"]
+
+    def translate(self):
+        extract.gen_tri_orient()
 
     def cases(self):
         n, size = (40, "small") if self.quick else (700, "large")
